@@ -40,6 +40,8 @@ type vfMaskState struct {
 	held    map[string][]*vfWire
 	applied int
 	dropped int
+	delayed int // datagrams that reached the peer later than the instant they were sent (hold, or a swap without successor)
+	nonPlain int // faults that touched anything but a datagram made of epoch-0 handshake records only
 }
 
 // Install makes net apply the mask. Returns a state from which the applied fault count is read.
@@ -64,6 +66,17 @@ func (m vfMask) Install(n *vfNet) *vfMaskState {
 		st.held[w.From] = nil
 		if act != '.' {
 			st.applied++
+			if !vfPlainHandshakeOnly(w.Data) {
+				st.nonPlain++
+			}
+		}
+		for _, h := range held {
+			if h.VTime != w.VTime {
+				st.delayed++ // released by a later transmission, not by its neighbour in the same burst
+			}
+			if !vfPlainHandshakeOnly(w.Data) {
+				st.nonPlain++ // the datagram it changes places with counts as touched
+			}
 		}
 		st.mu.Unlock()
 		switch act {
@@ -97,10 +110,16 @@ func (m vfMask) Install(n *vfNet) *vfMaskState {
 				st.held[w.From] = keep
 				st.mu.Unlock()
 				if found {
+					st.mu.Lock()
+					st.delayed++
+					st.mu.Unlock()
 					n.Deliver(w.Dst, w.Data, from)
 				}
 			})
 		case 'h':
+			st.mu.Lock()
+			st.delayed++
+			st.mu.Unlock()
 			n.DeliverAfter(1500*time.Millisecond, w.Dst, w.Data, from)
 		default:
 			n.Deliver(w.Dst, w.Data, from)
@@ -111,6 +130,38 @@ func (m vfMask) Install(n *vfNet) *vfMaskState {
 	}
 
 	return st
+}
+
+// Undisturbed reports that every datagram so far reached its destination at the instant it was sent: faults were
+// duplications and reorderings within one burst only.
+func (s *vfMaskState) Undisturbed() bool {
+	s.mu.Lock()
+	defer s.mu.Unlock()
+
+	return s.dropped == 0 && s.delayed == 0
+}
+
+// PlainHandshakeOnly: every datagram a fault touched (including the successor a swapped datagram changed places
+// with) consisted of unprotected handshake records only.
+func (s *vfMaskState) PlainHandshakeOnly() bool {
+	s.mu.Lock()
+	defer s.mu.Unlock()
+
+	return s.nonPlain == 0
+}
+
+func vfPlainHandshakeOnly(b []byte) bool {
+	recs, ok := vfParseDatagram(b, 0)
+	if !ok || len(recs) == 0 {
+		return false
+	}
+	for _, r := range recs {
+		if r.Unified || r.Type != 22 || r.Epoch != 0 {
+			return false
+		}
+	}
+
+	return true
 }
 
 func (s *vfMaskState) Applied() int {
